@@ -805,6 +805,65 @@ fn run_case(ops: &[Op], check_truth_path: bool) -> Run {
     Run { obs, texts, viol, n_ckpt, n_cut, stats }
 }
 
+// ------------------------------------------------------------------ long histories (beyond the bounded scans)
+/// A thread written straight into events.jsonl: 4 messages, a checkpoint at the 2nd message, then `n_after`
+/// checkpoint frames at the 4th message.  Returns (first answer, second answer, reference) for
+/// cut_points(stride 2, limit 2) — the first call rebuilds the caches from truth, the second one uses them.
+fn long_checkpoint_history(n_after: usize) -> Vec<Viol> {
+    let sc = Scratch::new("c09long");
+    let data = sc.path().join("data");
+    let ws = sc.path().join("ws");
+    std::fs::create_dir_all(&ws).unwrap();
+    let log = Arc::new(EventLog::new(data.join("events.jsonl")).unwrap());
+    let tid = uuid::Uuid::new_v4().to_string();
+    let mut seq = 0u64;
+    let mut push = |kind: EventKind| -> (u64, String) {
+        let id = uuid::Uuid::new_v4().to_string();
+        log.append(&Event { id: id.clone(), session_id: tid.clone(), timestamp_ms: 1, seq, kind }).unwrap();
+        seq += 1;
+        (seq - 1, id)
+    };
+    push(EventKind::ContinuityCreated { workspace: "w".into(), title: None });
+    let mut msgs = vec![];
+    for i in 0..4 {
+        msgs.push(push(EventKind::ContinuityMessageAppended { actor_id: "actor0".into(), origin: "test".into(), content: format!("m{i}") }));
+    }
+    let mut ck = |to: &(u64, String)| {
+        let id = uuid::Uuid::new_v4().to_string();
+        let _ = id;
+        EventKind::ContinuityCompactionCheckpointCreated {
+            checkpoint_id: uuid::Uuid::new_v4().to_string(),
+            cut_rule_id: "manual_v1".into(),
+            summary_kind: "cumulative_v1".into(),
+            summary_artifact_id: "0".repeat(64),
+            from_seq: 0,
+            from_message_id: None,
+            to_seq: to.0,
+            to_message_id: Some(to.1.clone()),
+            actor_id: "actor0".into(),
+            origin: "test".into(),
+        }
+    };
+    let k1 = ck(&msgs[1]);
+    push(k1);
+    for _ in 0..n_after {
+        let k = ck(&msgs[3]);
+        push(k);
+    }
+    let store = ContinuityStore::new(data.clone(), ws, log.clone()).unwrap();
+    let events = log.replay_stream(StreamKind::Continuity, &tid).unwrap();
+    let want: Vec<(u64, bool)> = ref_cut_points(&events, 2, 2).iter().map(|c| (c.ord, c.done)).collect();
+    let mut out = vec![];
+    for call in 0..2 {
+        let r = store.compaction_cut_points_v1(&tid, CompactionCutPointsV1Request { stride_messages: Some(2), limit: Some(2) });
+        let got: Vec<(u64, bool)> = r.map(|r| r.cut_points.iter().map(|c| (c.target_message_ordinal, c.already_checkpointed)).collect()).unwrap_or_default();
+        if got != want {
+            out.push(Viol { what: format!("thread with {} checkpoint frames, cut_points call #{call}: (ordinal, already_checkpointed) = {got:?}, checkpoint frames say {want:?}", n_after + 1), class: "checkpointed_flag_wrong_beyond_scan_window".into() });
+        }
+    }
+    out
+}
+
 // ------------------------------------------------------------------ generator
 fn gen_case(r: &mut Rng, long: bool) -> Vec<Op> {
     let strides = [0u64, 1, 2, 3, 7, 10_000];
@@ -972,6 +1031,20 @@ fn main() {
                     if res.samples.len() < 2 && ops.len() < 14 && i >= 4 {
                         res.samples.push(case_json(ops));
                     }
+                }
+            }
+        }
+    }
+    for n_after in [3usize, 9_999, 10_000, 10_050] {
+        let got = std::panic::catch_unwind(move || long_checkpoint_history(n_after));
+        res.evaluations += 1;
+        res.oracle_checks += 2;
+        res.bump("long_checkpoint_history");
+        match got {
+            Err(_) => res.oracle_violations.push(OracleViolation { case_id: -1, what: "panic on a long checkpoint history".into(), class: "panic".into(), replay: json!({"long_checkpoint_history": n_after}) }),
+            Ok(vs) => {
+                for v in vs {
+                    res.oracle_violations.push(OracleViolation { case_id: -1, what: v.what, class: v.class, replay: json!({"long_checkpoint_history": n_after, "query": "cut_points(stride 2, limit 2) twice"}) });
                 }
             }
         }
